@@ -217,6 +217,8 @@ def render_project(spec):
         rel = f["path"]
         if f["lang"] == "javascript":
             text = _render_js(f, M, facts)
+        elif f["lang"] == "java":
+            text = _render_java(f, M, facts)
         else:
             text = _render_py(f, M, facts, spec)
         files[rel] = text
@@ -324,37 +326,85 @@ def _render_py(f, M, facts, spec):
     return "\n".join(lines) + "\n"
 
 
+def _js_callee(M, c):
+    cm = M[c]
+    return "%s.%s" % (cm["cls"], cm["name"]) if cm["kind"] == "jsstatic" else cm["name"]
+
+
 def _render_js(f, M, facts):
     rel = f["path"]
     lines = []
-    for mid in f["methods"]:
+
+    def emit(mid, ind, head):
         m = M[mid]
-        lines.append("%sfunction %s(p) {" % ("async " if "async" in m["attrs"] else "", m["name"]))
+        lines.append(ind + head)
         def_line = len(lines)
         v = "v%d" % mid
-        lines.append("    var %s = p;" % v)
-        lines.append("    sink(%s);" % v)
+        lines.append("%s    var %s = p;" % (ind, v))
+        lines.append("%s    sink(%s);" % (ind, v))
         sink_line = len(lines)
         for c in m["calls"]:
-            lines.append("    %s(%s);" % (M[c]["name"], v))
-        lines.append("}")
+            lines.append("%s    %s(%s);" % (ind, _js_callee(M, c), v))
+        lines.append(ind + "}")
         facts[mid] = {"mid": mid, "file": rel, "name": m["name"], "kind": m["kind"], "attrs": list(m["attrs"]),
                       "line": def_line, "sink_line": sink_line, "calls": sorted(set(m["calls"]))}
+
+    classes = []
+    for x in f["methods"]:
+        c = M[x]["cls"]
+        if c and c not in classes:
+            classes.append(c)
+    for c in classes:
+        lines.append("class %s {" % c)
+        for mid in [x for x in f["methods"] if M[x]["cls"] == c]:
+            emit(mid, "    ", "static %s(p) {" % M[mid]["name"])
+        lines.append("}")
+    for mid in [x for x in f["methods"] if not M[x]["cls"]]:
+        m = M[mid]
+        emit(mid, "", "%sfunction %s(p) {" % ("async " if "async" in m["attrs"] else "", m["name"]))
     if f["init"] is not None:
         if f["init"]:
             for c in f["init"]:
-                lines.append("%s(1);" % M[c]["name"])
+                lines.append("%s(1);" % _js_callee(M, c))
         else:
             lines.append("var t0 = 0;")
+    return "\n".join(lines) + "\n"
+
+
+def _render_java(f, M, facts):
+    """One public class named after the file; `package` statement <=> the unit has an initialiser
+    (the package statement is the only top-level statement that is neither a declaration nor an import)."""
+    rel = f["path"]
+    cls = os.path.splitext(os.path.basename(rel))[0]
+    lines = []
+    if f["init"] is not None:
+        lines.append("package %s;" % (os.path.dirname(rel).replace("/", ".") or "app"))
+    lines.append("public class %s {" % cls)
+    for mid in f["methods"]:
+        m = M[mid]
+        mods = " ".join(m["attrs"])
+        lines.append("    %svoid %s(String p) {" % (mods + " " if mods else "", m["name"]))
+        def_line = len(lines)
+        v = "v%d" % mid
+        lines.append("        String %s = p;" % v)
+        lines.append("        sink(%s);" % v)
+        sink_line = len(lines)
+        for c in m["calls"]:
+            lines.append("        %s(%s);" % (M[c]["name"], v))
+        lines.append("    }")
+        facts[mid] = {"mid": mid, "file": rel, "name": m["name"], "kind": m["kind"], "attrs": list(m["attrs"]),
+                      "line": def_line, "sink_line": sink_line, "calls": sorted(set(m["calls"]))}
+    lines.append("}")
     return "\n".join(lines) + "\n"
 
 
 # ---------------------------------------------------------------------------------------------
 # settings directory
 
-SOURCE_RULES = [{"lang": l, "rules": [{"operation": "parameter_decl", "name": "p"}]} for l in ("python", "javascript")]
+LANGS = ("python", "javascript", "java")
+SOURCE_RULES = [{"lang": l, "rules": [{"operation": "parameter_decl", "name": "p"}]} for l in LANGS]
 SINK_RULES = [{"lang": l, "rules": [{"operation": "call_stmt", "name": "sink", "target": ["\\%arg0"]}]}
-              for l in ("python", "javascript")]
+              for l in LANGS]
 
 
 def resolve_rule(rule, unit_ids, stmt_ids):
